@@ -94,3 +94,5 @@ def _shared_r4(ctx):
         r.check('close-arm:precondition', ok0 and A.covers_all(pre), ctx.site(fnp), built=[x.cond_strs() for x in mine],
                 expected='reached for every Channel.Close frame in state Steady: the paths into the arm cover every case of whatever else is tested before it',
                 why="a half-received content, an unread reply or any other per-channel circumstance must not turn the server's Channel.Close into a connection error")
+    with ctx.rule('R09.10', "the Channel.Close arm tells the consumers before it releases the channel's caller, so a consumer being dropped cannot end the whole connection (shared with C11)", floor=2) as r:
+        A.include(ctx, r, 'c11', 'R11.7')
